@@ -5,6 +5,8 @@ pub mod c02;
 pub mod c04;
 pub mod c05;
 pub mod c06;
+pub mod c07;
+pub mod c08;
 pub mod c10;
 pub mod c11;
 pub mod c12;
@@ -18,6 +20,8 @@ pub fn property(id: &str, ctx: &Ctx) -> Option<Property> {
         "C04" => c04::property(ctx),
         "C05" => c05::property(ctx),
         "C06" => c06::property(ctx),
+        "C07" => c07::property(ctx),
+        "C08" => c08::property(ctx),
         "C10" => c10::property(ctx),
         "C11" => c11::property(ctx),
         "C12" => c12::property(ctx),
@@ -26,4 +30,4 @@ pub fn property(id: &str, ctx: &Ctx) -> Option<Property> {
     })
 }
 
-pub const ALL: &[&str] = &["C01", "C02", "C04", "C05", "C06", "C10", "C11", "C12", "C38"];
+pub const ALL: &[&str] = &["C01", "C02", "C04", "C05", "C06", "C07", "C08", "C10", "C11", "C12", "C38"];
